@@ -120,6 +120,10 @@ class Builder:
             self.jobs[target] = f
             return f
 
+    def flvdir(self, flv):
+        fl = FLAVOURS[flv]
+        return flv + '.' + hashlib.sha256((fl['cxx'] + ' '.join(fl['cflags']) + ' '.join(fl['ldflags'])).encode()).hexdigest()[:8]
+
     def flags(self, flv):
         fl = FLAVOURS[flv]
         common = ['-std=gnu++14', '-ffp-contract=off', '-DSOPLEX_VERIF', '-I' + os.path.join(REPO, 'src'), '-I' + self.inc,
@@ -128,7 +132,7 @@ class Builder:
 
     def lib_objects(self, flv, insts, extra_cpp=(), extra_defs=()):
         cxx, cf, _ = self.flags(flv)
-        d = os.path.join(self.root, flv, 'lib')
+        d = os.path.join(self.root, self.flvdir(flv), 'lib')
         futs, objs = [], []
         for s in SUPPORT_CPP:
             o = os.path.join(d, s + '.o')
@@ -153,7 +157,7 @@ class Builder:
         src = os.path.join(VERIF, 'harness', H['src'])
         vl = glob.glob(os.path.join(VERIF, 'vlib', '*.hpp')) + [src] + [os.path.join(VERIF, p) for p in H.get('extra_src', [])]
         hh = sha_files(vl, ' '.join(cf) + ' '.join(H.get('defs', [])))
-        d = os.path.join(self.root, flv, 'h', name + '.' + hh)
+        d = os.path.join(self.root, self.flvdir(flv), 'h', name + '.' + hh)
         futs, objs = self.lib_objects(flv, H.get('insts', ['inst_soplex']), H.get('repo_cpp', []))
         ho = os.path.join(d, name + '.o')
         futs.append(self.submit(ho, [cxx] + cf + H.get('defs', []) + ['-c', src, '-o', '@OUT@']))
